@@ -130,6 +130,14 @@ CHECKS = {
             'num_subblocks=1 the output must equal an exact model sample for sample; channelized_stds must be unchanged by a recording.',
             'gain band [0.4,2.5] x median on segments >= 32 spectra (inherent +-25% scatter from per-sub-block statistics); exact model only for num_subblocks=1',
             'DESIGN.md 3/C14'),
+    'C19': ('exploration',
+            'generated filterbank files (independent writer, channel-coded content) and arrays vs closed-form tiling model; count formula, per-piece data/frequency comparison, partition check',
+            'Generated (nchans, fchans, shift, tchans) incl. exact multiples, remainders and single pieces, header frequencies/resolutions of either sign: '
+            'the generator must yield floor((nchans-fchans)/shift)+1 pieces with exactly the expected channels, integrations and frequencies; split_fil must '
+            'write as many loadable files; distribution helpers must return that many values. Generated arrays/tiles/shifts/trim flags are compared with a '
+            'tile model; shift == size must partition the array.',
+            'blimpy reads the pieces (library\'s own reader); content and headers of written pieces are checked with the independent reader',
+            'DESIGN.md 3/C19'),
 }
 
 ALL = [f'C{i:02d}' for i in range(1, 21)]
